@@ -80,7 +80,7 @@ def own_classes(mol, with_ring=True):
 def gap_classes(mol):
     """which of the two documented heuristic gaps the molecule belongs to ('stereo-sym', 'cage'), plus 'bond-tie': an atom
     with two symmetry-equivalent neighbours that are attached by bonds of different order (annulenes with localised bonds
-    such as cyclooctatetraene) - not a documented gap: reported as a finding"""
+    such as cyclooctatetraene) - not a documented gap: found by this check, fixed in /repo (2e3e6bb), judged like any molecule"""
     out = set()
     cls = own_classes(mol)
     bonds = mol._bonds
@@ -264,7 +264,8 @@ SPECIAL = [
     'C[C@H](N)C(=O)O', 'C[C@@H](N)C(=O)O', 'F/C=C/Cl', 'F/C=C\\Cl', 'CC=[C@]=CC', 'C[C@H](O)[C@@H](O)C', 'C[C@H](O)[C@H](O)C',
     'OC[C@H]1O[C@@H](O)[C@H](O)[C@@H](O)[C@@H]1O', 'C/C=C/C=C/C', 'C/C=C/C=C\\C', 'N[C@@H](C)C(=O)N[C@@H](CO)C(=O)O',
     'C[C@]12CC[C@H](C1)C2(C)C', 'F/C(Cl)=C(Br)/I', 'C1CC1', 'C1CCC2CCCCC2C1', 'C12C3C4C1C5C2C3C45', 'C1C2CC3CC1CC(C2)C3',
-    'CC(C)(C)c1ccc(O)cc1', 'O=C1C=CC(=O)C=C1', 'C1=CC=C1', 'C1=CC=CC=CC=C1', 'n1ccccc1', 'c1cc[nH]c1', 'c1ccsc1', 'C#N', '[C-]#[O+]', 'N#N', '[H][H]', '[He]',
+    'CC(C)(C)c1ccc(O)cc1', 'O=C1C=CC(=O)C=C1', 'C1=CC=C1', 'C1=CC=CC=CC=C1', 'C1=CC=CC=CC=CC=CC=C1', 'C1=CC=CC=CC=CC=CC=CC=C1',
+    'CC1=CC=C1', 'C1=CC=CC=C1', 'C1=CC=C2C=CC=CC2=C1', 'N1=CC=NC=C1', 'C1=CC=CC=CC=C1C', 'n1ccccc1', 'c1cc[nH]c1', 'c1ccsc1', 'C#N', '[C-]#[O+]', 'N#N', '[H][H]', '[He]',
     'C', 'CC', 'C=C', 'C#C', 'CCCCCCCCCCCC', 'C1CCCCCCCCCCC1', 'OCC(O)CO', 'C(C(C)C)(C(C)C)C(C)C', 'CC(C)CC(C)C', 'B1OB(O)OB1',
     '[O-][N+](=O)c1ccccc1', 'CS(=O)(=O)O', 'OP(O)(O)=O', '[NH4+].[OH-]', 'C[Si](C)(C)C', 'C~C', 'C[Mg]Br', '[Li]CCCC',
 ]
@@ -298,7 +299,8 @@ class Searcher:
             return False
         gaps = gap_classes(base) | gap_classes(other)
         if 'bond-tie' in gaps:
-            # undocumented third gap: recorded finding (one stable key for the class; minimal member C1=CC=C1)
+            # third gap class found by this check and fixed in /repo by 2e3e6bb (one stable key for the class; minimal member
+            # C1=CC=C1): a VIOLATION if it ever returns
             ck.count('search:bond-order-tie-finding')
             ck.counterexample(BOND_TIE_KEY, 'two descriptions of one structure have different canonical SMILES: an atom has two '
                               'symmetry-equivalent neighbours attached by bonds of different order and the writer breaks the tie by set order',
@@ -309,7 +311,7 @@ class Searcher:
             self.gap_hits += 1
             ck.count('search:gap-skipped:' + '+'.join(sorted(gaps)))
             # the tie-independent part still has to hold: constitution without stereo marks (unless a cage)
-            if not (gaps & {'cage', 'bond-tie'}) and format(base, '!s') != format(other, '!s'):
+            if 'cage' not in gaps and format(base, '!s') != format(other, '!s'):
                 ck.counterexample(f'nostereo-differs:{kind}:{smi}', 'canonical string without stereo marks differs between two '
                                   'descriptions of one structure', {'smiles': smi, 'how': kind, 'detail': detail},
                                   [format(base, '!s'), format(other, '!s')], 'equal', 'structure identity by construction',
@@ -435,7 +437,7 @@ class Searcher:
             new, f, complete = rebuild(k, rng, offset=rng.choice([0, 0, 7, 1000]))
             if not complete or n_stereo(new) != n_stereo(k):
                 ck.count('search:rebuild-stereo-incomplete')
-                if format(new, '!s') != format(k, '!s') and not (gap_classes(k) & {'cage', 'bond-tie'}):
+                if format(new, '!s') != format(k, '!s') and 'cage' not in gap_classes(k):
                     ck.counterexample(f'canon-differs:rebuild-nostereo:{smi}', 'rebuilt structure (other insertion order) has another '
                                       'canonical string (stereo ignored)', {'smiles': smi, 'mapping': f}, [format(k, '!s'), format(new, '!s')],
                                       'equal', 'rebuild from scratch through add_atom/add_bond')
@@ -444,10 +446,8 @@ class Searcher:
                 if not arom:
                     self.compare('rebuild', smi, k, new, det)
                 else:
-                    # localised bonds of an aromatic ring are not a normalised description: compare after thiele(), and the
-                    # Kekule forms themselves only when no ring atom has tied neighbours across different bond orders
-                    if 'bond-tie' not in gap_classes(k):
-                        self.compare('rebuild-kekule', smi, k, new, det)
+                    # the Kekule forms themselves (tied ring neighbours across different bond orders: fixed by 2e3e6bb), then thiele()
+                    self.compare('rebuild-kekule', smi, k, new, det)
                     t0, t1 = k.copy(), new.copy()
                     t0.thiele()
                     t1.thiele()
@@ -487,11 +487,11 @@ class Searcher:
             if m4 is None:
                 ck.count('search:rdkit-spelling-not-read')
                 continue
-            gaps = (gap_classes(mc) | gap_classes(m4)) & {'stereo-sym', 'cage', 'bond-tie'}
+            gaps = (gap_classes(mc) | gap_classes(m4)) & {'stereo-sym', 'cage'}
             if n_stereo(m4) != n_stereo(mc):
                 # the two toolkits disagree about which centres are stereogenic: stereo labels are C12's business
                 ck.count('search:rdkit-stereo-count-differs')
-                if format(m4, '!s') != format(mc, '!s') and not (gaps & {'cage', 'bond-tie'}):
+                if format(m4, '!s') != format(mc, '!s') and 'cage' not in gaps:
                     self.rdkit_diff(smi, sp, mc, m4, '!s')
                 continue
             if str(m4) != str(mc) and not gaps:
@@ -666,14 +666,14 @@ Definition ao_ok (rings : list Z) (g : mol) (hashes : labels) (ia : iadj) (exp :
 Definition aol_ok (rings : list Z) (g : mol) (exp_labels exp : pyres labels) : bool :=
   let r := fast_morgan_labels (fast_atom_labels rings g) (int_adjacency g) in
   res_eqb r exp_labels && res_eqb (rank_res r) exp && (2 <=? Z.of_nat (List.length (m_atoms g))).
-(* the start atom and the first child of the writer model (Model.Writer: key_start / key_child / min_by / sort_by / bfs) with
+(* the start atom and the first child of the writer model (Model.Writer: key_start / key_child_at / min_by / sort_by / bfs) with
    the real weights w and the observed order as tie-break priority *)
 Definition zfun (l : list (Z * Z)) (n : Z) : Z := match zget l n with Some x => x | None => 0 end.
 Definition wk_ok (g : mol) (w tb : list (Z * Z)) (start : Z) (second : option Z) : bool :=
   let all := ids g in
   let seen := bfs g (S (List.length all)) [(start, 1)] [(start, 0)] in
   option_eqb Z.eqb (min_by (key_start (zfun w) (zfun tb) default_opts all) all) (Some start) &&
-  option_eqb Z.eqb (hd_error (sort_by (key_child (zfun w) (zfun tb) default_opts all seen) (nbr_ids g start))) second.
+  option_eqb Z.eqb (hd_error (sort_by (key_child_at g (zfun w) (zfun tb) default_opts all seen start) (nbr_ids g start))) second.
 (* the whole writer model on a small molecule: canonical string and written order, with the real weights (_chiral_morgan) *)
 Definition wr_ok (g : mol) (w tb : list (Z * Z)) (tabs : stabs) (text : string) (order : list Z) : bool :=
   match smiles_text g (zfun w) (zfun tb) default_opts tabs with
@@ -968,7 +968,7 @@ def run(ck):
         '2 atoms. search: each molecule renumbered x2, rebuilt through add_atom/add_bond/add_*_stereo in another order (Kekule form and '
         'after thiele), re-spelled by format(m,"r") x2 and by RDKit (aromatic and Kekule spelling, kekule+thiele on both sides) -> str, ==, '
         'hash; atoms_order against an own exact colour refinement; non-trivial = more than one atom. Members of the documented gap classes '
-        '(own symmetry oracle) are judged on the stereo-free string only; the undocumented bond-order-tie class is a recorded finding.')
+        '(own symmetry oracle) are judged on the stereo-free string only; the bond-order-tie class (annulenes with localised bonds, fixed by 2e3e6bb) is judged in full.')
     import time
     t0 = time.time()
     proved = common.standard_proof_steps(ck, translators=['elements', 'smiles_tables', 'stereo'], extra_targets=['model/MorganFast.vo'])
